@@ -256,7 +256,7 @@ PROPS = {
         vx_units=[], kx=['abi'],
         design_ref='DESIGN.md section 5, C13',
         not_covered=[
-            'constants absent from the installed kernel header (protocol 7.38): HAS_RESEND, FD_PASSTHROUGH, NotifyOpcode::Resend and the KERNEL_MINOR_VERSION_* thresholds are reported as UNCHECKED',
+            'constants absent from the installed kernel header (protocol 7.38): FD_PASSTHROUGH (vendor flag, no upstream value) is reported as UNCHECKED; HAS_RESEND and NotifyOpcode::Resend are compared with values PINNED BY HAND from Linux 6.9 fuse.h (kx/abi_map.json `pinned`: an assumption); the KERNEL_MINOR_VERSION_* thresholds have no kernel constant - the reply specifications of unit server carry the protocol revisions (5, 23, 4) as literals, so a changed threshold fails C03 / C12',
             'the macOS ABI file (src/abi/fuse_abi_macos.rs)',
         ],
         trusted=['T1 Kani 0.68 / CBMC 6.11, clang 14 (C probe)', 'oracle: /usr/include/linux/fuse.h (7.38)', 'exception table kx/abi_map.json (each entry justified)'],
